@@ -118,6 +118,22 @@ func recvMsg(ctx context.Context, st *stream.Stream, api int, n int) ([]byte, er
 
 // handoff exports, discards the stream, and rebuilds it from the blob.
 func (w *world) handoff(sd *side, where string) bool {
+	if w.s.T.Chance("export.mode-off", 1, 3) {
+		// the key stays but encryption is switched off: this is not an encrypted stream, and a
+		// blob saying so would make the next owner talk in clear to a peer that expects AES-GCM
+		if w.s.T.Choose("export.mode-off.how", 2) == 0 {
+			sd.st.SetCryptoMode(false)
+		} else {
+			sd.st.SetEncrypted(false)
+		}
+		_, xerr := sd.st.ExportCryptoState()
+		sd.st.SetCryptoMode(true)
+		if xerr == nil {
+			w.fail("export-accepted-unclean", "encryption-switched-off", "%s: export succeeded on a keyed stream whose encryption was switched off", sd.name)
+			return false
+		}
+		w.s.Probe("unclean-export-refused:mode-off")
+	}
 	blob, err := sd.st.ExportCryptoState()
 	if err != nil {
 		w.fail("export-refused-at-clean-boundary", where, "%s: export at a message boundary after traffic in both directions failed: %v", sd.name, err)
